@@ -368,6 +368,7 @@ func New(o Opts) *World {
 		o.Mode.WrapErrors = true
 		o.Mode.RowCount = true
 		o.Mode.TTL = true
+		o.Mode.StrictTx = true
 	}
 	w.Store = NewIStore(w.Mem, o.Mode)
 	specs := o.Clients
